@@ -79,4 +79,10 @@ theorem source_time_encoders_total (fuel : Nat) :
    fun t h1 h2 => (Go.X.isOk_iff _).mp (Gen.GoModel.P0x9206_Encode_total fuel t h1 h2),
    fun t h1 h2 => (Go.X.isOk_iff _).mp (Gen.GoModel.T0x1005_Encode_total fuel t h1 h2)⟩
 
+/-- multimedia event 0x0800 (32-bit ID followed by four single-byte fields): `Parse(Encode(v)) = v` on the translated code -/
+theorem source_0800_roundtrip (fuel : Nat) (j : Gen.GoFrame.jt808_JTMessage) (t q : Gen.GoModel.model_T0x0800) :
+    ∃ body, Gen.GoModel.model_T0x0800_Encode fuel t = .ok body ∧
+      ∃ r, Gen.GoModel.model_T0x0800_Parse fuel q { j with Body := body } = .ok (r, none) ∧ r.MultimediaID = t.MultimediaID ∧ r.MultimediaType = t.MultimediaType ∧ r.MultimediaFormatEncode = t.MultimediaFormatEncode ∧ r.EventItemEncode = t.EventItemEncode ∧ r.ChannelID = t.ChannelID :=
+  Gen.GoModel.T0x0800_roundtrip fuel t q j
+
 end JT.C07
